@@ -6,6 +6,7 @@ and `rf_cull_tail` what the lazy cull may take away (policy `none`: expired
 rows only).
 -/
 import DC.Proofs.RefineOps
+import DC.Proofs.LossyLemmas
 
 namespace DC.Cache
 open DC.Spec
@@ -136,12 +137,119 @@ theorem rf_cull_tail (t : Cache) (now : Int) (hasc : RowidsAsc t.rows) (hp : t.c
   | true => rfl
   | false => exact absurd hp (cullW_removed t now hasc r hr hnot hex).1
 
+/-- `_cull` with any policy: the facts of `cullW_loss`, nothing else changes -/
+theorem rf_cull_tail_gen (t : Cache) (now : Int) (hi : TableInv t) :
+    CullFacts t.cfg t.env now t.rows (t.cullW now).1 ∧
+    (t.cullW now).1.files = t.files ∧ (t.cullW now).1.cfg = t.cfg := by
+  obtain ⟨hc, -⟩ := cullW_core t now
+  exact ⟨cullW_facts t now hi, congrArg Core.files hc, congrArg Core.cfg hc⟩
+
+/-- the table after INSERT-or-UPDATE has no NULL key -/
+theorem rf_setRows_nonnull {t : Cache} (hi : TableInv t) (dbk : SqlVal) (raw : Bool) (now : Int)
+    (c : Cols) (hnn : dbk ≠ .null) : ∀ r ∈ setRows dbk raw now c t, r.key ≠ .null := by
+  unfold setRows
+  cases hs : t.selKey dbk raw with
+  | some r0 => exact (updRow_inv r0.rowid now c hi).tbl.nonnull
+  | none => exact (insRow_inv dbk raw now c hi hs hnn).tbl.nonnull
+
+/-- the rows of the other keys are rows of the table after INSERT-or-UPDATE -/
+theorem rf_setRows_keep {t : Cache} (hi : TableInv t) (K : Key) (now : Int) (c : Cols) :
+    ∀ r ∈ t.rows, keyMatch K.1 K.2 r = false → r ∈ setRows K.1 K.2 now c t := by
+  intro r hr hk
+  unfold setRows
+  cases hs : t.selKey K.1 K.2 with
+  | some r0 =>
+    simp only
+    have hne : r.rowid ≠ r0.rowid := by
+      intro hid
+      have := rowidsAsc_eq_of_rowid hi.tbl.asc hr (selKey_mem hs) hid
+      subst this
+      have : keyMatch K.1 K.2 r = true := List.find?_some hs
+      rw [hk] at this; cases this
+    exact List.mem_map.2 ⟨r, hr, by simp [updF, hne]⟩
+  | none => exact List.mem_append_left _ hr
+
+/-- the view after a write that stored `e` under `K` and then culled: the keys of the evicted
+rows `L` are gone, expired entries may be gone, everything else is as after the write -/
+def rf_Wrote (s c' : Cache) (K : Key) (now : Int) (e : Entry) : Prop :=
+  ∃ L, rf_Lossy now (L.map rowKey) (rf_at K (some e) (rf_view s)) (rf_view c') ∧ Loss s c' K now L ∧
+    (∀ r ∈ L, ∃ e', rf_at K (some e) (rf_view s) (rowKey r) = some e' ∧ EntOf r e') ∧
+    c'.size + sumSizes L ≤ s.size + entrySize e
+
+theorem rf_rowSize_nonneg (rows : List Row) (id : Nat) : 0 ≤ rowSize rows id := by
+  unfold rowSize
+  split
+  · exact Int.natCast_nonneg _
+  · exact Int.le_refl _
+
+/-- the table after INSERT-or-UPDATE is at most the new value larger than the table before -/
+theorem rf_setRows_size_le {t : Cache} (hi : TableInv t) (dbk : SqlVal) (raw : Bool) (now : Int)
+    (c : Cols) (hnn : dbk ≠ .null) : sumSizes (setRows dbk raw now c t) ≤ t.size + c.size := by
+  unfold setRows
+  cases hs : t.selKey dbk raw with
+  | some r0 =>
+    have h := (updRow_inv r0.rowid now c hi).tbl.size
+    have h0 := rf_rowSize_nonneg t.rows r0.rowid
+    show sumSizes (t.updRow r0.rowid now c).rows ≤ _
+    rw [← h]
+    show (if t.rows.any (·.rowid == r0.rowid) then t.size + c.size - rowSize t.rows r0.rowid else t.size) ≤ _
+    split <;> omega
+  | none =>
+    have h := (insRow_inv dbk raw now c hi hs hnn).tbl.size
+    show sumSizes (t.insRow dbk raw now c).rows ≤ _
+    rw [← h]
+    exact Int.le_refl _
+
+/-- the size column `Disk.store` produces is the size of the value file -/
+theorem rf_store_size {s s1 : Cache} {E : Externals} {v : PyVal} {read : Bool} {c : Cols} {p : Placement}
+    (hst : s.store E v read = .ok (s1, c))
+    (hpl : place E s.cfg.disk s.cfg.minFileSize v read = .ok p) (e : Option Int) (t : SqlVal) :
+    (c.size : Int) = entrySize (entryOf p e t) := by
+  unfold store at hst
+  rw [hpl] at hst
+  cases p with
+  | inline mode sv =>
+    simp only [Except.ok.injEq, Prod.mk.injEq] at hst
+    rw [← hst.2]; rfl
+  | file mode ct =>
+    simp only [Except.ok.injEq, Prod.mk.injEq] at hst
+    rw [← hst.2]; rfl
+
+/-- without an eviction policy nothing is evicted -/
+theorem rf_Wrote_none {s c' : Cache} {K : Key} {now : Int} {e : Entry} (h : rf_Wrote s c' K now e)
+    (hp : s.cfg.policy = .none) :
+    rf_Culled now (rf_at K (some e) (rf_view s)) (rf_view c') := by
+  obtain ⟨L, h1, h2, -⟩ := h
+  have := h2.polNone hp
+  subst this
+  exact rf_Lossy_nil.1 h1
+
 end DC.Cache
 
 namespace DC.Cache
 open DC.Spec
 
 /-! ### `set` -/
+
+theorem rf_setBody_ok_gen (t : Cache) (dbk : SqlVal) (raw : Bool) (now : Int) (c : Cols)
+    (hi : TableInv t) (hnn : dbk ≠ .null)
+    (hb : bindable dbk = true) (hcb : c.bindable = true) :
+    (setBody dbk raw now c t).ok = true ∧ (setBody dbk raw now c t).out = .bool true ∧
+    CullFacts t.cfg t.env now (setRows dbk raw now c t) (setBody dbk raw now c t).s ∧
+    (setBody dbk raw now c t).s.files = t.files ∧ (setBody dbk raw now c t).s.cfg = t.cfg := by
+  unfold setBody setRows
+  simp only [hb, hcb, Bool.not_true, Bool.false_eq_true, if_false]
+  cases hs : t.selKey dbk raw with
+  | some r0 =>
+    simp only
+    obtain ⟨h1, h3, h4⟩ := rf_cull_tail_gen ((t.logSql "selKey").updRow r0.rowid now c) now
+      (updRow_inv r0.rowid now c (logSql_inv _ hi))
+    exact ⟨trivial, trivial, h1, h3, h4⟩
+  | none =>
+    simp only
+    obtain ⟨h1, h3, h4⟩ := rf_cull_tail_gen ((t.logSql "selKey").insRow dbk raw now c) now
+      (insRow_inv dbk raw now c (logSql_inv _ hi) hs hnn)
+    exact ⟨trivial, trivial, h1, h3, h4⟩
 
 theorem rf_setBody_ok (t : Cache) (dbk : SqlVal) (raw : Bool) (now : Int) (c : Cols)
     (hi : TableInv t) (hp : t.cfg.policy = .none) (hnn : dbk ≠ .null)
@@ -150,20 +258,14 @@ theorem rf_setBody_ok (t : Cache) (dbk : SqlVal) (raw : Bool) (now : Int) (c : C
     (∀ r ∈ (setBody dbk raw now c t).s.rows, r ∈ setRows dbk raw now c t) ∧
     (∀ r ∈ setRows dbk raw now c t, r ∉ (setBody dbk raw now c t).s.rows → expired now r = true) ∧
     (setBody dbk raw now c t).s.files = t.files ∧ (setBody dbk raw now c t).s.cfg = t.cfg := by
-  obtain ⟨-, hasc⟩ := rf_setRows_unique hi dbk raw now c hnn
-  unfold setBody setRows at *
-  simp only [hb, hcb, Bool.not_true, Bool.false_eq_true, if_false]
-  cases hs : t.selKey dbk raw with
-  | some r0 =>
-    rw [hs] at hasc
-    simp only at hasc ⊢
-    obtain ⟨h1, h2, h3, h4⟩ := rf_cull_tail ((t.logSql "selKey").updRow r0.rowid now c) now hasc hp
-    exact ⟨trivial, trivial, h1, h2, h3, h4⟩
-  | none =>
-    rw [hs] at hasc
-    simp only at hasc ⊢
-    obtain ⟨h1, h2, h3, h4⟩ := rf_cull_tail ((t.logSql "selKey").insRow dbk raw now c) now hasc hp
-    exact ⟨trivial, trivial, h1, h2, h3, h4⟩
+  obtain ⟨h1, h2, hf, h3, h4⟩ := rf_setBody_ok_gen t dbk raw now c hi hnn hb hcb
+  refine ⟨h1, h2, hf.sub, ?_, h3, h4⟩
+  intro r hr hnot
+  cases hex : expired now r with
+  | true => rfl
+  | false =>
+    have := mem_lostRows.2 ⟨hr, hex, hnot⟩
+    rw [hf.polNone hp] at this; cases this
 
 theorem rf_setBody_fail (t : Cache) (dbk : SqlVal) (raw : Bool) (now : Int) (c : Cols)
     (h : ¬ (bindable dbk = true ∧ c.bindable = true)) :
@@ -187,16 +289,16 @@ theorem rf_entryOf_val (p : Placement) (e e' : Option Int) (t t' : SqlVal) :
     (entryOf p e t).val = (entryOf p e' t').val := by
   cases p <;> rfl
 
-theorem rf_set_view (s : Cache) (E : Externals) (now : Int) (k v : PyVal) (ttl : Option Int)
-    (read : Bool) (tag : SqlVal) (hg : Good s) (hp : s.cfg.policy = .none) :
+theorem rf_set_view_gen (s : Cache) (E : Externals) (now : Int) (k v : PyVal) (ttl : Option Int)
+    (read : Bool) (tag : SqlVal) (hg : Good s) :
     match place E s.cfg.disk s.cfg.minFileSize v read with
     | .error _ => s.set E now k v ttl read tag = (s, .exc "UnicodeEncodeError")
     | .ok p =>
       if bindable (keyOf E s.cfg k).1 && bindable (entryOf p (ttl.map (now + ·)) tag).tag &&
           bindable (entryOf p (ttl.map (now + ·)) tag).val then
         (s.set E now k v ttl read tag).2 = .bool true ∧
-        rf_Culled now (rf_at (keyOf E s.cfg k) (some (entryOf p (ttl.map (now + ·)) tag)) (rf_view s))
-          (rf_view (s.set E now k v ttl read tag).1)
+        rf_Wrote s (s.set E now k v ttl read tag).1 (keyOf E s.cfg k) now
+          (entryOf p (ttl.map (now + ·)) tag)
       else
         (s.set E now k v ttl read tag).2 = .exc "UnicodeEncodeError" ∧
         ∀ k', rf_view (s.set E now k v ttl read tag).1 k' = rf_view s k' := by
@@ -227,28 +329,39 @@ theorem rf_set_view (s : Cache) (E : Externals) (now : Int) (k v : PyVal) (ttl :
     by_cases hb : (bindable (keyOf E s.cfg k).1 && bindable tag && bindable c.val) = true
     · rw [if_pos hb]
       simp only [Bool.and_eq_true] at hb
-      obtain ⟨hok, hout, hsub, hgone, hfiles, -⟩ := rf_setBody_ok (s1.log .begin) (keyOf E s.cfg k).1
-        (keyOf E s.cfg k).2 now { c with expT := ttl.map (now + ·), tag := tag } hi1
-        (by rw [log_cfg, hcfg]; exact hp) hnn hb.1.1
+      obtain ⟨hok, hout, hfacts, hfiles, -⟩ := rf_setBody_ok_gen (s1.log .begin) (keyOf E s.cfg k).1
+        (keyOf E s.cfg k).2 now { c with expT := ttl.map (now + ·), tag := tag } hi1 hnn hb.1.1
         (by simp only [Cols.bindable, Bool.and_eq_true]; exact ⟨hb.1.2, hb.2⟩)
+      have hsz := rf_transact_size s1 (setBody (keyOf E s.cfg k).1 (keyOf E s.cfg k).2 now
+          { c with expT := ttl.map (now + ·), tag := tag }) c.file hd1 hok
       rw [hok] at hR
       simp only [if_true] at hR
       refine ⟨hO.trans hout, ?_⟩
       have hu := (rf_setRows_unique hi1 (keyOf E s.cfg k).1 (keyOf E s.cfg k).2 now
         { c with expT := ttl.map (now + ·), tag := tag } hnn).1
-      have hcul := rf_culled (b := s1) (now := now) hg' hu (by rw [hR]; exact hsub)
-        (by rw [hR]; exact hgone) (by intro q hq; have := hF q hq; rw [hfiles] at this; exact this)
-        hP1.nodup
-      intro k'
-      have hl := rf_look_setRows (s := s) (s1 := s1) (t := s1.log .begin) hg.tinv hrows hentS
-        (keyOf E s.cfg k) now { c with expT := ttl.map (now + ·), tag := tag }
-        (entryOf p (ttl.map (now + ·)) tag)
+      have hfacts' := hfacts
+      rw [show (s1.log .begin).cfg = s.cfg from hcfg,
+        show (s1.log .begin).env = s.env from (store_env hst : s1.env = s.env)] at hfacts'
+      exact rf_lossy_finish (b := s1) hg hg' hfacts' hR hsz hu
+        (rf_setRows_nonnull hi1 _ _ _ _ hnn)
+        (by intro q hq; have := hF q hq; rw [hfiles] at this; exact this) hP1.nodup
+        (rf_look_setRows (s := s) (s1 := s1) (t := s1.log .begin) hg.tinv hrows hentS
+          (keyOf E s.cfg k) now { c with expT := ttl.map (now + ·), tag := tag }
+          (entryOf p (ttl.map (now + ·)) tag)
+          (by
+            intro r h1 h2 h3 h4 h5
+            simp only at h1 h2 h3 h4 h5
+            rw [hent1 r h1 h2 h3, h4, h5]))
         (by
-          intro r h1 h2 h3 h4 h5
-          simp only at h1 h2 h3 h4 h5
-          rw [hent1 r h1 h2 h3, h4, h5]) k'
-      rw [← hl]
-      exact hcul k'
+          have := rf_setRows_keep hi1 (keyOf E s.cfg k) now { c with expT := ttl.map (now + ·), tag := tag }
+          rw [show (s1.log .begin).rows = s.rows from hrows] at this
+          exact this)
+        (by
+          have h := rf_setRows_size_le hi1 (keyOf E s.cfg k).1 (keyOf E s.cfg k).2 now
+            { c with expT := ttl.map (now + ·), tag := tag } hnn
+          rw [show (s1.log .begin).size = s.size from (store_keep hst).2.2.2.1] at h
+          rw [← rf_store_size hst hpl (ttl.map (now + ·)) tag]
+          exact h)
     · rw [if_neg hb]
       obtain ⟨hok, hout, hfiles, -⟩ := rf_setBody_fail (s1.log .begin) (keyOf E s.cfg k).1
         (keyOf E s.cfg k).2 now { c with expT := ttl.map (now + ·), tag := tag }
@@ -266,6 +379,33 @@ theorem rf_set_view (s : Cache) (E : Externals) (now : Int) (k v : PyVal) (ttl :
       rw [rf_same hg' (b := s1) (by intro q hq; have := hF q hq; rw [hfiles] at this; exact this)
         hP1.nodup, hR, hrows]
       exact rf_look_congr hentS k'
+
+theorem rf_set_view (s : Cache) (E : Externals) (now : Int) (k v : PyVal) (ttl : Option Int)
+    (read : Bool) (tag : SqlVal) (hg : Good s) (hp : s.cfg.policy = .none) :
+    match place E s.cfg.disk s.cfg.minFileSize v read with
+    | .error _ => s.set E now k v ttl read tag = (s, .exc "UnicodeEncodeError")
+    | .ok p =>
+      if bindable (keyOf E s.cfg k).1 && bindable (entryOf p (ttl.map (now + ·)) tag).tag &&
+          bindable (entryOf p (ttl.map (now + ·)) tag).val then
+        (s.set E now k v ttl read tag).2 = .bool true ∧
+        rf_Culled now (rf_at (keyOf E s.cfg k) (some (entryOf p (ttl.map (now + ·)) tag)) (rf_view s))
+          (rf_view (s.set E now k v ttl read tag).1)
+      else
+        (s.set E now k v ttl read tag).2 = .exc "UnicodeEncodeError" ∧
+        ∀ k', rf_view (s.set E now k v ttl read tag).1 k' = rf_view s k' := by
+  have h := rf_set_view_gen s E now k v ttl read tag hg
+  cases hpl : place E s.cfg.disk s.cfg.minFileSize v read with
+  | error e => rw [hpl] at h; exact h
+  | ok p =>
+    rw [hpl] at h
+    simp only at h ⊢
+    split
+    · rename_i hb
+      rw [if_pos hb] at h
+      exact ⟨h.1, rf_Wrote_none h.2 hp⟩
+    · rename_i hb
+      rw [if_neg hb] at h
+      exact h
 
 end DC.Cache
 
@@ -489,8 +629,8 @@ theorem rf_addBody_store (t : Cache) (dbk : SqlVal) (raw : Bool) (now : Int) (c 
     simp only [hb, hcb, Bool.not_true, Bool.false_eq_true, if_false]
     exact ⟨trivial, trivial, trivial⟩
 
-theorem rf_add_view (s : Cache) (E : Externals) (now : Int) (k v : PyVal) (ttl : Option Int)
-    (read : Bool) (tag : SqlVal) (hg : Good s) (hp : s.cfg.policy = .none) :
+theorem rf_add_view_gen (s : Cache) (E : Externals) (now : Int) (k v : PyVal) (ttl : Option Int)
+    (read : Bool) (tag : SqlVal) (hg : Good s) :
     match place E s.cfg.disk s.cfg.minFileSize v read with
     | .error _ => s.add E now k v ttl read tag = (s, .exc "UnicodeEncodeError")
     | .ok p =>
@@ -503,8 +643,8 @@ theorem rf_add_view (s : Cache) (E : Externals) (now : Int) (k v : PyVal) (ttl :
       else if bindable (entryOf p (ttl.map (now + ·)) tag).tag &&
           bindable (entryOf p (ttl.map (now + ·)) tag).val then
         (s.add E now k v ttl read tag).2 = .bool true ∧
-        rf_Culled now (rf_at (keyOf E s.cfg k) (some (entryOf p (ttl.map (now + ·)) tag)) (rf_view s))
-          (rf_view (s.add E now k v ttl read tag).1)
+        rf_Wrote s (s.add E now k v ttl read tag).1 (keyOf E s.cfg k) now
+          (entryOf p (ttl.map (now + ·)) tag)
       else
         (s.add E now k v ttl read tag).2 = .exc "UnicodeEncodeError" ∧
         ∀ k', rf_view (s.add E now k v ttl read tag).1 k' = rf_view s k' := by
@@ -587,9 +727,11 @@ theorem rf_add_view (s : Cache) (E : Externals) (now : Int) (k v : PyVal) (ttl :
           simp only [if_true]
           obtain ⟨e1, e2, e3⟩ := rf_addBody_store (s1.log .begin) (keyOf E s.cfg k).1
             (keyOf E s.cfg k).2 now { c with expT := ttl.map (now + ·), tag := tag } hb hnl hcb
-          obtain ⟨hok, hout, hsub, hgone, hfiles, -⟩ := rf_setBody_ok (s1.log .begin) (keyOf E s.cfg k).1
-            (keyOf E s.cfg k).2 now { c with expT := ttl.map (now + ·), tag := tag } hi1
-            (by rw [log_cfg, hcfg]; exact hp) hnn hb hcb
+          obtain ⟨hok, hout, hfacts, hfiles, -⟩ := rf_setBody_ok_gen (s1.log .begin) (keyOf E s.cfg k).1
+            (keyOf E s.cfg k).2 now { c with expT := ttl.map (now + ·), tag := tag } hi1 hnn hb hcb
+          have hsz := rf_transact_size s1 (rf_addBody (keyOf E s.cfg k).1 (keyOf E s.cfg k).2 now
+            { c with expT := ttl.map (now + ·), tag := tag }) c.file hd1 (e1.trans hok)
+          rw [e3] at hsz
           rw [e1, e3, hok] at hR
           rw [e3] at hF
           rw [e2] at hO
@@ -597,18 +739,69 @@ theorem rf_add_view (s : Cache) (E : Externals) (now : Int) (k v : PyVal) (ttl :
           refine ⟨hO.trans hout, ?_⟩
           have hu := (rf_setRows_unique hi1 (keyOf E s.cfg k).1 (keyOf E s.cfg k).2 now
             { c with expT := ttl.map (now + ·), tag := tag } hnn).1
-          have hcul := rf_culled (b := s1) (now := now) hg' hu (by rw [hR]; exact hsub)
-            (by rw [hR]; exact hgone) (by intro q hq; have := hF q hq; rw [hfiles] at this; exact this)
-            hP1.nodup
-          intro k'
-          have hl := rf_look_setRows (s := s) (s1 := s1) (t := s1.log .begin) hg.tinv hrows hentS
-            (keyOf E s.cfg k) now { c with expT := ttl.map (now + ·), tag := tag }
-            (entryOf p (ttl.map (now + ·)) tag)
+          have hfacts' := hfacts
+          rw [show (s1.log .begin).cfg = s.cfg from hcfg,
+            show (s1.log .begin).env = s.env from (store_env hst : s1.env = s.env)] at hfacts'
+          exact rf_lossy_finish (b := s1) hg hg' hfacts' hR hsz hu
+            (rf_setRows_nonnull hi1 _ _ _ _ hnn)
+            (by intro q hq; have := hF q hq; rw [hfiles] at this; exact this) hP1.nodup
+            (rf_look_setRows (s := s) (s1 := s1) (t := s1.log .begin) hg.tinv hrows hentS
+              (keyOf E s.cfg k) now { c with expT := ttl.map (now + ·), tag := tag }
+              (entryOf p (ttl.map (now + ·)) tag)
+              (by
+                intro r h1 h2 h3 h4 h5
+                simp only at h1 h2 h3 h4 h5
+                rw [hent1 r h1 h2 h3, h4, h5]))
             (by
-              intro r h1 h2 h3 h4 h5
-              simp only at h1 h2 h3 h4 h5
-              rw [hent1 r h1 h2 h3, h4, h5]) k'
-          rw [← hl]
-          exact hcul k'
+              have := rf_setRows_keep hi1 (keyOf E s.cfg k) now { c with expT := ttl.map (now + ·), tag := tag }
+              rw [show (s1.log .begin).rows = s.rows from hrows] at this
+              exact this)
+            (by
+              have h := rf_setRows_size_le hi1 (keyOf E s.cfg k).1 (keyOf E s.cfg k).2 now
+                { c with expT := ttl.map (now + ·), tag := tag } hnn
+              rw [show (s1.log .begin).size = s.size from (store_keep hst).2.2.2.1] at h
+              rw [← rf_store_size hst hpl (ttl.map (now + ·)) tag]
+              exact h)
+
+theorem rf_add_view (s : Cache) (E : Externals) (now : Int) (k v : PyVal) (ttl : Option Int)
+    (read : Bool) (tag : SqlVal) (hg : Good s) (hp : s.cfg.policy = .none) :
+    match place E s.cfg.disk s.cfg.minFileSize v read with
+    | .error _ => s.add E now k v ttl read tag = (s, .exc "UnicodeEncodeError")
+    | .ok p =>
+      if !bindable (keyOf E s.cfg k).1 then
+        (s.add E now k v ttl read tag).2 = .exc "UnicodeEncodeError" ∧
+        ∀ k', rf_view (s.add E now k v ttl read tag).1 k' = rf_view s k'
+      else if rf_has now (rf_view s (keyOf E s.cfg k)) then
+        (s.add E now k v ttl read tag).2 = .bool false ∧
+        ∀ k', rf_view (s.add E now k v ttl read tag).1 k' = rf_view s k'
+      else if bindable (entryOf p (ttl.map (now + ·)) tag).tag &&
+          bindable (entryOf p (ttl.map (now + ·)) tag).val then
+        (s.add E now k v ttl read tag).2 = .bool true ∧
+        rf_Culled now (rf_at (keyOf E s.cfg k) (some (entryOf p (ttl.map (now + ·)) tag)) (rf_view s))
+          (rf_view (s.add E now k v ttl read tag).1)
+      else
+        (s.add E now k v ttl read tag).2 = .exc "UnicodeEncodeError" ∧
+        ∀ k', rf_view (s.add E now k v ttl read tag).1 k' = rf_view s k' := by
+  have h := rf_add_view_gen s E now k v ttl read tag hg
+  cases hpl : place E s.cfg.disk s.cfg.minFileSize v read with
+  | error e => rw [hpl] at h; exact h
+  | ok p =>
+    rw [hpl] at h
+    simp only at h ⊢
+    split
+    · rename_i hb; rw [if_pos hb] at h; exact h
+    · rename_i hb
+      rw [if_neg hb] at h
+      split
+      · rename_i hh; rw [if_pos hh] at h; exact h
+      · rename_i hh
+        rw [if_neg hh] at h
+        split
+        · rename_i hcb
+          rw [if_pos hcb] at h
+          exact ⟨h.1, rf_Wrote_none h.2 hp⟩
+        · rename_i hcb
+          rw [if_neg hcb] at h
+          exact h
 
 end DC.Cache
